@@ -35,7 +35,8 @@ def steadyFamilies : List String := [
   "signal.composition_fork_add_delay_clip_buffered",
   "bus.lockstep_three_outputs_after_warmup",
   "graph.process_again_same_size_stock_nodes",
-  "graph.wide_mixer_hundreds_of_inputs_again", "graph.dense_dag_96_nodes_again"]
+  "graph.wide_mixer_hundreds_of_inputs_again", "graph.dense_dag_96_nodes_again",
+  "graph.nested_graph_node_with_wired_inputs_again"]
 
 /-- modelled steady-state allocation effect of a catalogue family; `none` = not in the catalogue -/
 def effectOf (family : String) : Option Effect :=
